@@ -14,18 +14,26 @@
    operation reserved(), every reservation's size(), ok/err and return values, metrics()
    (reserved/peak per consumer, entry presence), report_top(), peak_reserved()/max_reserved() and
    memory_limit() are compared with the specification's values and with the property itself.
+3. Real threads: 3-7 OS threads share each real pool / wrapper stack - "hog" threads that only issue
+   fallible growths larger than the limit, workers whose own total never exceeds a budget (sum of
+   budgets <= limit; fair pool: limit / #spillable consumers), an observer sampling reserved() and
+   metrics() continuously, barriers with exact equalities at quiescent points.  Oracles are only
+   invariants TLC proves for every interleaving (WithinLimit, NoSpuriousRefusal, failed try_grow
+   changes nothing, Accounting, Tracked); TLC refutes the add-then-rollback variant of try_grow
+   (MUT = TRUE) as a negative control, and a harness-local add-then-rollback pool is run as a
+   positive control of the thread layer (reported, never part of the verdict).
 """
 import json, os
 from common import *
 
 KEY = "fair-pool-multiple-reservations-of-one-consumer"
-INVS = "Accounting AccountingQuiescent AllDroppedZero FairState Tracked PeakRec FairPerConsumer FailedChangesNothing GreedyWithinLimit"
+INVS = "Accounting AccountingQuiescent AllDroppedZero FairState Tracked PeakRec FairPerConsumer FailedChangesNothing GreedyWithinLimit WithinLimit NoSpuriousRefusal"
 ACTIONS = ("Register", "GrowP", "GrowS", "ShrinkS", "ShrinkP", "NewRes", "DropR", "ResetPeak")
 
 
-def mp_cfg(nc, nr, t, maxops, perres=False, view=True, kinds='{"unbounded", "greedy", "fair"}', limits="{3, 4}", sizes="{1, 2, 3}", invs=INVS):
+def mp_cfg(nc, nr, t, maxops, perres=False, view=True, kinds='{"unbounded", "greedy", "fair"}', limits="{3, 4}", sizes="{1, 2, 3}", invs=INVS, mut=False, fonly=False):
     s = (f"CONSTANTS NC = {nc}  NR = {nr}  T = {t}  KINDS = {kinds}  LIMITS = {limits}  SIZES = {sizes}  MAXOPS = {maxops}  "
-         f"PERRES = {'TRUE' if perres else 'FALSE'}\nSPECIFICATION Spec\n")
+         f"PERRES = {'TRUE' if perres else 'FALSE'}  MUT = {'TRUE' if mut else 'FALSE'}  FALLIBLE_ONLY = {'TRUE' if fonly else 'FALSE'}\nSPECIFICATION Spec\n")
     if view:
         s += "VIEW view\n"
     return s + f"INVARIANTS {invs}\nCHECK_DEADLOCK FALSE\n"
@@ -65,6 +73,25 @@ def run(ctx):
     if "FairPerConsumer" not in rp.invariant_violated:
         sys.stderr.write(rp.out[-3000:])
         raise ToolError("MemPool with PERRES=TRUE no longer violates FairPerConsumer (specification lost its teeth)")
+    # ---- 1b. what the real-thread layer may rely on: with only fallible growth a greedy pool reports <= limit in EVERY
+    #          state and refuses a growth only when it does not fit next to what the threads really hold (3 threads);
+    #          negative control: the "add, then roll back" variant of try_grow (MUT) must break both
+    fo = dict(nc=2, nr=2, t=2, maxops=6, fonly=True, kinds='{"greedy"}', limits="{3}") if ctx.quick else dict(nc=2, nr=2, t=3, maxops=6, fonly=True, kinds='{"greedy"}', limits="{3}")
+    cfg = ctx.path("fonly.cfg")
+    open(cfg, "w").write(mp_cfg(**fo))
+    r = tlc_must_pass(ctx, "proto/MemPool", cfg=cfg, workers=workers, tag="fonly", timeout=3000)
+    states += r.distinct
+    transitions += r.generated
+    mc.append({"constants": fo, "distinct_states": r.distinct, "generated": r.generated, "wall_s": round(r.wall, 1)})
+    mut_refuted = []
+    for inv in ("WithinLimit", "NoSpuriousRefusal"):
+        cfg = ctx.path(f"mut-{inv}.cfg")
+        open(cfg, "w").write(mp_cfg(nc=2, nr=2, t=2, maxops=5, fonly=True, mut=True, kinds='{"greedy"}', limits="{3}", invs=inv))
+        rm = tlc(ctx, "proto/MemPool", cfg=cfg, workers=2, tag=f"mut-{inv}")
+        if inv not in rm.invariant_violated:
+            sys.stderr.write(rm.out[-3000:])
+            raise ToolError(f"negative control: MemPool with MUT=TRUE (add-then-rollback try_grow) no longer violates {inv}")
+        mut_refuted.append(inv)
     # ---- 2. histories
     gens = [dict(nc=2, nr=3, t=1, maxops=3)] if ctx.quick else [dict(nc=2, nr=3, t=1, maxops=4), dict(nc=3, nr=3, t=1, maxops=3, limits="{2, 6}", sizes="{1, 2, 4}")]
     histories = []
@@ -102,6 +129,12 @@ def run(ctx):
         report_violation(ctx, v)
     if res["known"]:
         report_violation(ctx, {"known": res["known"][0]}, key=KEY)
+    # ---- 3. real threads on the real pools (oracles = the invariants above; see harness/vpool/src/c17t.rs)
+    tout = ctx.path("threads.json")
+    run_harness(ctx, "vpool", ["c17", "--mode", "threads", "--out", tout], timeout=3000)
+    thr = json.load(open(tout))
+    for v in thr["violations"]:
+        report_violation(ctx, v)
     kinds_seen = res["per_kind"]
     if len(kinds_seen) < 3 or min(n for _, n in res["per_wrapper"]) == 0:
         raise ToolError(f"coverage collapsed: kinds {kinds_seen} wrappers {res['per_wrapper']}")
@@ -116,9 +149,12 @@ def run(ctx):
         "replays": {"history_x_wrapper_runs_ok": res["evaluations"], "per_wrapper": res["per_wrapper"], "ops": res["ops"],
                     "try_grow_granted": res["try_grow_ok"], "try_grow_denied": res["try_grow_err"], "report_top_checks": res["report_top_checks"],
                     "known_fair_pool_divergences": res["known_divergences"], "ops_checked_by_property_oracle_only_after_divergence": res["post_known_ops"]},
+        "mut_negative_control_refuted_by_tlc": mut_refuted,
+        "real_threads": {k: thr[k] for k in thr if k not in ("violations", "samples", "tool_errors")},
+        "real_threads_note": "every oracle of the thread layer is an invariant TLC proves for all interleavings (WithinLimit, NoSpuriousRefusal, failed try_grow changes nothing, Accounting at quiescence, Tracked); one observed breach is a violation, observing none in the interleavings that happened to occur proves nothing beyond them",
         "rule": "case = one complete sequential behaviour of MemPool.tla (pool kind and limit chosen in Init) replayed under one wrapper stack; histories are distinct by construction",
     }, assumptions=[
-        "thread interleavings between the pool half and the size half of each operation are explored in the model only; the real pools are driven sequentially",
+        "thread interleavings are explored exhaustively in the model only; on the real pools they are sampled by uncontrolled OS-thread runs (hogs / budgeted workers / observer with barriers), not enumerated",
         "API misuse that panics by contract (shrink/split of more than held) is excluded by the model's preconditions; try_shrink beyond the size is included (error, nothing changes)",
         "resize/try_resize are exercised as the alternative entry point of grow/shrink/try_grow/try_shrink (chosen by the seed)",
         "TrackConsumersPool is instantiated over a transparent Arc<dyn MemoryPool> adapter so that any inner pool/wrapper can be stacked",
